@@ -1,5 +1,6 @@
 import Driver.Util
 import Lattigo.Model.Galois
+import Lattigo.Model.GaloisGen
 import Lattigo.Model.InnerSum
 
 /-
@@ -13,6 +14,10 @@ import Lattigo.Model.InnerSum
     innersum-bgv|innersum-ckks[-reqs] lay N t hasP slots batch n vec
     trace[-reqs] lay rt logNRing t logN vec
     rotate[-reqs] lay N t k vec | conj[-reqs] lay rt N t vec | rothoisted lay N t hasP ks vec
+
+  `galel`, `galels`, `modinv`, `dlog`, `ordertwo` execute the definitions REGENERATED from the Go source
+  (`Lattigo/Gen/Galois.lean` through the wrappers of `Model/GaloisGen.lean`), not the hand-written
+  `Model/Galois.lean`; `Props/C11Gen.lean` (`driver_ops_gen`) proves the two equal.
 -/
 namespace Driver.C11
 open Driver Lattigo.Model.Galois Lattigo.Model.InnerSum
@@ -94,19 +99,19 @@ def handle (toks : List String) : String :=
     match toks with
     | ["galel", N, k] =>
       let N ← parseNat? N; let k ← parseInt? k
-      pure (toString (galEl N k))
+      pure (toString (Lattigo.Model.GaloisGen.galEl N k))
     | ["galels", N, ks] =>
       let N ← parseNat? N; let ks ← parseIVec? ks
-      pure (showVec (galEls N ks))
+      pure (showVec (Lattigo.Model.GaloisGen.galEls N ks))
     | ["modinv", N, g] =>
       let N ← parseNat? N; let g ← parseNat? g
-      pure (toString (modInv N g))
+      pure (toString (Lattigo.Model.GaloisGen.modInv N g))
     | ["dlog", N, g] =>
       let N ← parseNat? N; let g ← parseNat? g
-      pure (match solveDiscreteLog N g with | some k => toString k | none => "diverges")
+      pure (match Lattigo.Model.GaloisGen.solveDiscreteLog N g with | some k => toString k | none => "diverges")
     | ["ordertwo", rt, N] =>
       let rt ← parseRt? rt; let N ← parseNat? N
-      pure (match orderTwo rt N with | some g => toString g | none => "panic")
+      pure (match Lattigo.Model.GaloisGen.orderTwo rt N with | some g => toString g | none => "panic")
     | ["nttindex", n, N, g] =>
       let n ← parseNat? n; let N ← parseNat? N; let g ← parseNat? g
       pure (match automorphismNTTIndex n N g with | some l => showVec l | none => "err")
